@@ -530,6 +530,20 @@ def run_tour(kind, labs, seed):
 
 
 def validate(traces):
+    """all traces judged by TLC, in chunks of 400"""
+    from .container import _Merged
+    if len(traces) <= 400:
+        return validate_chunk(traces)
+    merged, verdict = _Merged(), {}
+    for a in range(0, len(traces), 400):
+        res, v = validate_chunk(traces[a:a + 400])
+        merged.add(res)
+        for tid, cl in v.items():
+            verdict[a + tid] = cl
+    return merged, verdict
+
+
+def validate_chunk(traces):
     tf = os.path.join(common.scratch(), f"otraces-{time.time_ns()}.json")
     with open(tf, "w") as fh:
         json.dump([{k: v for k, v in t.items() if k != "meta"} for t in traces], fh)
